@@ -71,6 +71,50 @@ def stream_scenario(rng, idx, big=False):
     return sc
 
 
+def proxy_line(rng):
+    """octets before a packet header on a proxy-mode connection"""
+    good = "PROXY %s %s %s %d %d" % (rng.choice(["TCP4", "TCP6", "tcp", "Tcp4", "TCP"]), rng.choice(["10.0.0.1", "2001:db8::1", "x"]), rng.choice(["10.0.0.2", "::1", ""]),
+                                     rng.randint(0, 65535), rng.randint(0, 65535))
+    k = rng.random()
+    if k < 0.80:
+        s = good + rng.choice(["\r\n\x00", "\r\n\x00", "\x00", "\n\x00"])
+    elif k < 0.83:
+        s = ""                                                     # no line at all: the header itself is searched for the terminator
+    elif k < 0.86:
+        s = good.replace("PROXY", "PROXI") + "\r\n\x00"
+    elif k < 0.89:
+        s = good.replace(" ", "  ", 1) + "\r\n\x00"               # seven chunks
+    elif k < 0.92:
+        s = good.replace("TCP", "UDP").replace("tcp", "udp").replace("Tcp", "Udp") + "\r\n\x00"
+    elif k < 0.95:
+        s = "x" + good + " \r\n\x00"
+    elif k < 0.975:
+        s = good + "\r\n"                                          # terminator missing: the search runs on into the header
+    else:
+        s = "".join(chr(rng.randint(1, 255)) for _ in range(rng.randint(0, 300))) + "PROXY tcp a b c d\x00"
+    return list(s.encode("latin1"))
+
+
+def proxy_scenario(rng, idx):
+    sc = stream_scenario(rng, idx)
+    sc["id"] = "px%d" % idx
+    sc["proxy"] = True
+    extra = 0
+    for p in sc["pkts"]:
+        p["pre"] = proxy_line(rng)
+        extra += len(p["pre"])
+    if sc.get("cuts") and sum(sc["cuts"]) > 0 and rng.random() < 0.7:
+        # re-cut over the longer stream, now also around the line boundaries
+        total = extra + sum(12 + len(p.get("body", [])) for p in sc["pkts"]) - sc.get("trunc", 0)
+        cuts, rest = [], total
+        while rest > 0 and len(cuts) < 120:
+            c = rng.choice([1, 2, 3, 11, 12, 13, 30, 107, 108, rng.randint(1, 200)])
+            cuts.append(c)
+            rest -= c
+        sc["cuts"] = cuts
+    return sc
+
+
 def run(ctx, prop):
     quick = ctx.tier == "quick"
     rng = random.Random(ctx.seed * 65537 + 5)
@@ -81,6 +125,12 @@ def run(ctx, prop):
     ctx.log("MC_Framing: %d states (all segmentations of all small streams)" % r0["distinct"])
     nscen, nbig, ncli = (600, 1, 150) if quick else (12000, 8, 2000)
     scen = [stream_scenario(rng, i, i < nbig) for i in range(nscen)]
+    # growth beyond the listed properties: the reader in proxy mode (FramingProxy.tla), judged as model divergence only
+    pcfg = "MCFP.cfg"
+    with open(os.path.join(ctx.specdir(), pcfg), "w") as f:
+        f.write("SPECIFICATION Spec\nCONSTANTS\n  MaxB = %d\n  MaxP = %d\nINVARIANTS DeliveredIsPrefix FinalMatches NoShortPacket\nCHECK_DEADLOCK FALSE\n" % ((2, 2) if quick else (2, 3)))
+    rp = ctx.tlc_ok("MC_FramingProxy", cfg=pcfg, workers=NCPU, heap="8g")
+    scen += [proxy_scenario(rng, i) for i in range(200 if quick else 4000)]
     sfile = ctx.path("scen.ndjson")
     with open(sfile, "w") as f:
         for s in scen:
@@ -92,8 +142,9 @@ def run(ctx, prop):
     chunks = split_trace(tf, NCPU * (1 if quick else 3), ctx.path("chunks"))
     res = validate_chunks(ctx, "Trace_Framing", chunks, heap="4g")
     byid = {s["id"]: s for s in scen}
-    found, cnt = [], {}
+    found, cnt, pdivs = [], {}, []
     for rr in res:
+        pdivs += [l[:160] for l in rr["out"].splitlines() if l.startswith('<<"DIV"')]
         for m in re.finditer(r'"CNT",\s*\[(.*?)\]', rr["out"], re.S):
             for k, v in re.findall(r'(\w+) \|-> (\d+)', m.group(1)):
                 cnt[k] = cnt.get(k, 0) + int(v)
@@ -123,7 +174,8 @@ def run(ctx, prop):
     cov = {"states": ctx.tlc_distinct, "transitions": ctx.tlc_states, "traces_validated_against_impl": len(scen) + st2["events"],
            "evaluations": len(scen), "distinct_nontrivial": len({json.dumps(s["cuts"]) + str(len(s["pkts"])) for s in scen if s["cuts"]}),
            "rule": "one evaluation = one byte stream (1..6 packets, bodies 0..65536) with one chunking fed to the real server; non-trivial = distinct chunking that actually cuts the stream",
-           "samples": [sample], "oracle_counts": cnt, "design_states": r0["distinct"], "client_events": st2["events"], "exhaustive": False}
+           "samples": [sample], "oracle_counts": cnt, "design_states": r0["distinct"], "client_events": st2["events"], "exhaustive": False,
+           "proxy_mode": {"design_states": rp["distinct"], "streams": cnt.get("proxy", 0), "model_divergences": len(pdivs), "first_divergences": pdivs[:5]}}
     return conclude(ctx, "model_checking", cov,
                     ["connections are scripted in-memory net.Conn objects returning exactly the scripted chunks per Read",
                      "stream scenarios carry the unencrypted flag (obfuscation is C03's concern)",
